@@ -771,7 +771,8 @@ def step (p : Prog) (reenter : Reenter) (src : Nat) : M Ctl := do
         if isLocal then
           let off := (← curFrame).stackOffset
           let slot := off + index
-          if slot ≥ (← get).stack.count then throwE (.panic "register_upvalue: slot above the stack")
+          -- (repaired) the slot of the variable is gone: an error, not an out-of-bounds panic
+          if slot ≥ (← get).stack.count then throwE .invalidArgument
           let s ← get
           match s.openUpvalues.find? (fun a => upvalueSlot s.heap a == some slot) with
           | some u =>
@@ -893,10 +894,10 @@ def runLoop (p : Prog) (gas ip : Nat) (s : VmState) : VmState × Except RunErr U
 structure Outcome where
   err : Option RunErr
 
-/-- every nested `run_function` consumes one unit of gas without dispatching; the nesting depth is
-    bounded by the call stack (script callees) and by the value stack (native callees push an
-    argument per level) -/
-def gasFor (s : VmState) (maxInstr : Nat) : Nat := maxInstr + 3 * s.frameCap + 3 * s.stack.data.length + 16
+/-- every nested `run_function` consumes one unit of gas without dispatching; a new level is entered
+    by a dispatched call instruction (at most one per dispatch), or by a native calling a native
+    (bounded by the value stack: each level keeps an argument there) -/
+def gasFor (s : VmState) (maxInstr : Nat) : Nat := 2 * maxInstr + 3 * s.frameCap + 3 * s.stack.data.length + 16
 
 /-- `Vm::run(program)` (repaired: the frames pushed by the run are popped again) -/
 def run (p : Prog) (maxInstr : Nat) (s : VmState) : VmState × Option RunErr :=
@@ -905,7 +906,9 @@ def run (p : Prog) (maxInstr : Nat) (s : VmState) : VmState × Option RunErr :=
   let s := { s with frames := s.frames ++ [{ src := 0, dst := 0, stackOffset := 0, closure := none }],
                     remaining := maxInstr, dispatches := 0 }
   let (s', r) := runLoop p (gasFor s maxInstr) 0 s
-  let s'' := { s' with frames := s'.frames.take depth }
+  -- `ObjectGcGuard`s are scoped (RAII): whatever an instruction or host function still held when
+  -- an error unwound the run has been released by the time `run` returns
+  let s'' := { s' with frames := s'.frames.take depth, guards := s.guards }
   match r with
   | .ok () => (s'', none)
   | .error e => (s'', some e)
